@@ -229,8 +229,15 @@ def r3_common_range(ctx, RULE='R3.common-range'):
     empty = any(isinstance(n, ast.Raise) for n in walk_no_nested(fs.node))
     ctx.check(RULE, f'{site(fs)} nothing in band', empty, key(fs, 'empty'), 'an empty filter result no longer raises')
     fe = repo.func(RQ, 'find_elements_common_range')
-    txt = ast.unparse(fe.node)
-    ok = 'n.params.bands for n in el_list if isinstance(n, (Edfa, Multiband_amplifier))' in txt.replace('\n', ' ')
+    from ..pattern import find
+    hits = find('[V_n.params.bands for V_n in V_l if isinstance(V_n, (Edfa, Multiband_amplifier))]', fe.node) + \
+        find('[V_n.params.bands for V_n in V_l if isinstance(V_n, (Multiband_amplifier, Edfa))]', fe.node)
+    ok = len(hits) == 1 and hits[0][1]['V_l'] == fe.params[0]
+    if ok:
+        st = stmt_of(fe, hits[0][0])
+        cc = calls_to(fe, {'find_common_range'})
+        ok = isinstance(st, ast.Return) or (isinstance(st, ast.Assign) and len(cc) == 1 and cc[0].args and
+                                            isinstance(cc[0].args[0], ast.Name) and cc[0].args[0].id == st.targets[0].id)
     ctx.check(RULE, site(fe), ok, key(fe, 'amps'),
               'the common range is not computed from the bands of every Edfa and Multiband_amplifier of the element list')
     # intersection
@@ -240,19 +247,21 @@ def r3_common_range(ctx, RULE='R3.common-range'):
     found = False
     for lid, lb in ev.loop_bodies.items():
         post = lb['post']
-        if 'f_min' in post and 'f_max' in post and isinstance(lb['node'], ast.For):
-            a, b = post['f_min'], post['f_max']
-            ka, kb = vkey(a), vkey(b)
-            lo = isinstance(a, Rat) and "'f_min'" in ka and 'abs(' in ka and "'f_max'" not in ka
-            hi = isinstance(b, Rat) and "'f_max'" in kb and 'abs(' in kb and "'f_min'" not in kb
+        if not isinstance(lb['node'], ast.For):
+            continue
+
+        def absco(v):
             # max(x, y) = (x + y + |x - y|)/2 ; min = (x + y - |x - y|)/2 : sign of the abs term
-            sa = [c for k, c in a.n.t.items() if any(REG[x].name == 'abs' for x, _ in k)] if isinstance(a, Rat) else []
-            sb = [c for k, c in b.n.t.items() if any(REG[x].name == 'abs' for x, _ in k)] if isinstance(b, Rat) else []
-            this = lo and hi and sa and sb and sa[0] > 0 and sb[0] < 0
-            node = lb['node']
-            keep = [n for n in walk_no_nested(node) if isinstance(n, ast.If) and isinstance(n.test, ast.Compare) and
-                    ast.unparse(n.test) in ('f_min < f_max', 'f_max > f_min')]
-            found = found or (bool(this) and bool(keep))
+            return [c for k, c in v.n.t.items() if any(REG[x].name == 'abs' for x, _ in k)]
+        los = [nm for nm, v in post.items() if isinstance(v, Rat) and "'f_min'" in vkey(v) and 'abs(' in vkey(v) and
+               "'f_max'" not in vkey(v) and absco(v) and absco(v)[0] > 0]
+        his = [nm for nm, v in post.items() if isinstance(v, Rat) and "'f_max'" in vkey(v) and 'abs(' in vkey(v) and
+               "'f_min'" not in vkey(v) and absco(v) and absco(v)[0] < 0]
+        for lo_n in los:
+            for hi_n in his:
+                keep = [n for n in walk_no_nested(lb['node']) if isinstance(n, ast.If) and isinstance(n.test, ast.Compare) and
+                        ast.unparse(n.test) in (f'{lo_n} < {hi_n}', f'{hi_n} > {lo_n}')]
+                found = found or bool(keep)
     ctx.check(RULE, f'{site(fc)} pairwise intersection', bool(found), key(fc, 'intersection'),
               'the common range is not the pairwise intersection [max(f_min), min(f_max)] kept when non-empty')
     outer = [n for n in walk_no_nested(fc.node) if isinstance(n, ast.For) and isinstance(n.iter, ast.Name)]
